@@ -154,6 +154,16 @@ def call_tree(ctx, pid, ints=None, floor_note=True):
                 for nm in shared_state.resets_moved_before_loop(f.node, ref_fn):
                     ctx.bad("fn:%s:reset-moved:%s" % (q.split(".", 1)[-1], nm), where,
                             "%s resets `%s` before the loop that assigns it; the reviewed function resets it after that loop and then accumulates into it: the accumulation now starts from what the last iteration left there" % (q, nm))
+                was_ = shared_state.float_ops(ref_fn)
+                for sp_, node_ in sorted(shared_state.float_ops(f.node).items()):
+                    if sp_ not in was_:
+                        ctx.bad("fn:%s:floating-point:%s" % (q.split(".", 1)[-1], sp_), "%s:%d" % (rel, node_.lineno),
+                                "%s now computes with `%s` (`%s`), which goes through a 53-bit floating-point value; the reviewed function is exact integer arithmetic: for values beyond 2**53 (scalars, coordinates, amounts) the result is rounded"
+                                % (q, sp_, ast.unparse(node_)[:60]))
+                for a_, d_ in shared_state.forsaken_public_attributes(f.node, ref_fn, f.cls):
+                    ctx.bad("fn:%s:derived-copy:%s" % (q.split(".", 1)[-1], a_), where,
+                            "%s no longer reads the public attribute self.%s; it reads self.%s, which the constructor derives from it once, while other methods still read self.%s: after self.%s is re-assigned the object follows two different values"
+                            % (q, a_, d_, a_, a_))
                 for nm, node in shared_state.hoisted_initialisations(f.node, ref_fn):
                     ctx.bad("fn:%s:hoisted-init:%s" % (q.split(".", 1)[-1], nm), "%s:%d" % (rel, node.lineno),
                             "%s creates `%s` once, before its loops, and fills it inside them; the reviewed function creates a new one in every iteration: the elements of one iteration are still there in the next" % (q, nm))
